@@ -14,7 +14,8 @@ Example rk4_time_refuted :
 Proof.
   split.
   - unfold RK4_gen, RK4Iterator_gen, plain_update. cbv zeta. cbn [fst T Rops ofZ dvd one vadd smul vcar Rvs].
-    change (@eq R) with (@eq R). lra.
-  - rewrite <- rk4_doc_is_rk. unfold RK4_doc. cbv zeta. cbn [vadd smul vcar Rvs]. change (@eq (vcar Rvs)) with (@eq R). lra.
+    lra.
+  - rewrite <- rk4_doc_is_rk. unfold RK4_doc. cbv zeta. cbn [vadd smul vcar Rvs].
+    change (@eq (vcar Rvs)) with (@eq R). lra.
 Qed.
 Print Assumptions rk4_time_refuted.
